@@ -86,6 +86,7 @@ def main(argv: List[str]) -> int:
             "table_obligations": n1,
             "alias_roots": n2,
             "bounded_root_sweep_inputs": sweep,
+            "cross_check": cov.get("cross_check"),
             "samples": cov["samples"][:6],
             "notes": run.notes,
         }
